@@ -44,6 +44,7 @@ class Contract:
         self.ats = []          # (pos, lines)
         self.rewrites = []     # (old, new, all?)
         self.rewrites_re = []  # (regex, template)
+        self.rewrites_const = []  # (const name, literal value): fn-local const initialiser replaced by its value (checked natively)
         self.kani = []         # harness names that discharge this contract
         self.note = ''
         self.sig = None        # replacement signature (trusted fns whose signature Verus cannot take)
@@ -98,6 +99,11 @@ def parse_file(path):
             i += 1
             continue
         assert cur is not None, (path, i + 1, ln)
+        m = re.match(r'^rewrite_const\s+`(\w+)`\s*=>\s*`(.*)`\s*$', ln)
+        if m:
+            cur.rewrites_const.append((m.group(1), m.group(2)))
+            i += 1
+            continue
         m = re.match(r'^(rewrite_re|drop_re)\s+`(.*?)`(?:\s*=>\s*`(.*)`)?\s*$', ln)
         if m:
             cur.rewrites_re.append((m.group(2), m.group(3) or ''))
